@@ -228,6 +228,8 @@ Proof.
      match ol with Some l => Ok (Some (sort_set l)) | None => Ok (Some [dd]) end =
      Ok (Some (eff_times ol dd))).
   { intros ol dd. destruct ol; reflexivity. }
+  match goal with |- context [if memZ 0 ?l then _ else _] =>
+    destruct (memZ 0 l); [cbn [bind]; discriminate|cbn [bind]] end.
   rewrite !E1. cbn [bind opt_list].
   rewrite (time_product_valid _ _ _ RH RM RS). cbn [bind].
   intros H. inversion H; subst; clear H. cbn [timeset]. f_equal.
